@@ -381,4 +381,11 @@ def replay(payload):
     if st == "unstable":
         rem, add = diff_lines(w1, w2)
         print("only in pass 1:\n" + "\n".join(rem[:30]) + "\nonly in pass 2:\n" + "\n".join(add[:30]))
-    return 0 if st in ("stable", "not-accepted") else 1
+    if st in ("stable", "not-accepted"):
+        return 0
+    known = {e["id"] for e in common.known_findings("C03")}
+    cl = classify_unstable(src if "file" in payload else w1, w1, w2 or "", writer_sorts_access())
+    if cl and cl in known:
+        print("this instability belongs to the known finding", cl)
+        return 0
+    return 1
